@@ -528,6 +528,38 @@ impl IndexCatalog {
 //@end
 }
 
+impl BlobStore {
+// C18.client.frame.blob_delete — deleting a blob frees only pages of its own chain (each page it frees is
+// one it has just read the next pointer from, starting at the blob's first page) and changes no page content.
+//@extract nervusdb-storage/src/blob_store.rs BlobStore::delete ret r
+//@attr #[verifier::exec_allows_no_decreases_clause]
+//@| requires old(pager).wf(),
+//@| ensures final(pager).wf(), final(pager).bytes().len() == old(pager).bytes().len(),
+//@|     forall|i: int| 16384 <= i < old(pager).bytes().len() ==> #[trigger] final(pager).bytes()[i] == old(pager).bytes()[i],
+//@|     // nothing is ever allocated by a delete
+//@|     forall|q: int| 0 <= q < 65536 && #[trigger] final(pager).bitmap.bit(q) ==> old(pager).bitmap.bit(q),
+//@|     // a page that is neither the first page of the blob nor named by the next pointer of a page freed before it stays allocated
+//@|     forall|q: int| 0 <= q < 65536 && #[trigger] old(pager).bitmap.bit(q) && !final(pager).bitmap.bit(q)
+//@|         ==> q == page_id0 || exists|p: int| 2 <= p < 65536 && old(pager).bitmap.bit(p) && !final(pager).bitmap.bit(p)
+//@|                 && #[trigger] from_le64(old(pager).bytes().subrange(p * 8192, p * 8192 + 8)) == q,
+//@prewrite "mut page_id: u64" => "page_id0: u64"
+//@prewrite "        while page_id != 0" => "        let mut page_id = page_id0;\n        while page_id != 0"
+//@loop 1
+//@| invariant old(pager).wf(), pager.wf(), pager.bytes().len() == old(pager).bytes().len(),
+//@|     forall|i: int| 16384 <= i < old(pager).bytes().len() ==> #[trigger] pager.bytes()[i] == old(pager).bytes()[i],
+//@|     forall|q: int| 0 <= q < 65536 && #[trigger] pager.bitmap.bit(q) ==> old(pager).bitmap.bit(q),
+//@|     forall|q: int| 0 <= q < 65536 && #[trigger] old(pager).bitmap.bit(q) && !pager.bitmap.bit(q)
+//@|         ==> q == page_id0 || exists|p: int| 2 <= p < 65536 && old(pager).bitmap.bit(p) && !pager.bitmap.bit(p)
+//@|                 && #[trigger] from_le64(old(pager).bytes().subrange(p * 8192, p * 8192 + 8)) == q,
+//@|     page_id == page_id0 || exists|p: int| 2 <= p < 65536 && old(pager).bitmap.bit(p) && !pager.bitmap.bit(p)
+//@|                 && #[trigger] from_le64(old(pager).bytes().subrange(p * 8192, p * 8192 + 8)) == page_id,
+//@proof after 1 "pager.free_page(PageId::new(page_id))?;"
+//@| let p = page_id as int;
+//@| assert(page@.subrange(0, 8) =~= old(pager).bytes().subrange(p * 8192, p * 8192 + 8));
+//@| assert(from_le64(old(pager).bytes().subrange(p * 8192, p * 8192 + 8)) == next_page_id);
+//@end
+}
+
 //@canary|pub proof fn canary_wf(p: Pager) requires p.wf(), p.alloc(5), !p.alloc(6), p.next() == 9 ensures false {}
 //@canary|pub proof fn canary_frame(a: Pager, b: Pager) requires frame_ok(a, b, ISet::<int>::empty()), a.alloc(7), b.alloc(8), !a.alloc(8), a.bytes().len() == 81920 ensures false {}
 //@canary|pub proof fn canary_i2e_room(p: Pager, start: int) requires p.wf(), 2 <= start < 65536, !p.alloc(start + 1), p.alloc(start) ensures false {}
